@@ -177,10 +177,22 @@ func c20Scenario(l *Lab, rep *Report, w *c20World, name string, si int) {
 			reqs = append(reqs, reqt{fmt.Sprintf("size-%d", sz), rl, GenStream(uint64(si*1000+id), sz-4)})
 		}
 	}
+	sent := map[string]map[string]bool{} // kerberos payload (without prefix) -> effective realms it was addressed to
+	var sentMu sync.Mutex
 	run := func(rq reqt) {
 		framed := make([]byte, 4+len(rq.payload))
 		binary.BigEndian.PutUint32(framed, uint32(len(rq.payload)))
 		copy(framed[4:], rq.payload)
+		sentMu.Lock()
+		if sent[string(rq.payload)] == nil {
+			sent[string(rq.payload)] = map[string]bool{}
+		}
+		if rq.realm == "" {
+			sent[string(rq.payload)][w.def] = true
+		} else {
+			sent[string(rq.payload)][rq.realm] = true
+		}
+		sentMu.Unlock()
 		body := KDCProxyMessage(framed, rq.realm, -1)
 		before := w.snapshot()
 		r, dur, err := w.post(body, nil, "POST", W)
@@ -201,32 +213,11 @@ func c20Scenario(l *Lab, rep *Report, w *c20World, name string, si int) {
 		detail["status"] = r.Status
 		rep.Eval(HashStr(name, rq.class, rq.realm, r.Status))
 		rep.Count(fmt.Sprintf("status/%d", r.Status), 1)
-		// what did the KDCs see
-		after := w.snapshot()
-		contacted := map[string]bool{}
+		// candidate replies: what a replying KDC of the effective realm answers to this message
 		var replies [][]byte
-		for k, a := range after {
-			b := before[k]
-			krealm := strings.SplitN(k.Name, "#", 2)[0]
-			for _, m := range a.tcp[len(b.tcp):] {
-				contacted[krealm] = true
-				if m != nil && !bytes.Equal(m, framed) && len(m) > 0 {
-					rep.Violate("C20/kdc-received-other-bytes/tcp/"+name, fmt.Sprintf("KDC %s received %d bytes over TCP that are not the embedded message (%d bytes with prefix); first difference at %d", k.Name, len(m), len(framed), firstDiff(m, framed)), detail)
-				}
-				rp := k.Reply(rq.payload)
-				fr := make([]byte, 4+len(rp))
-				binary.BigEndian.PutUint32(fr, uint32(len(rp)))
-				copy(fr[4:], rp)
-				if k.Beh.TCP == "reply-close" || k.Beh.TCP == "reply-hold" {
-					replies = append(replies, fr)
-				}
-			}
-			for _, m := range a.udp[len(b.udp):] {
-				contacted[krealm] = true
-				if !bytes.Equal(m, rq.payload) {
-					rep.Violate("C20/kdc-received-other-bytes/udp/"+name, fmt.Sprintf("KDC %s received a %d byte datagram that is not the embedded message without its prefix (%d bytes)", k.Name, len(m), len(rq.payload)), detail)
-				}
-				if k.Beh.UDP == "reply" {
+		if rr, ok := w.realms[realm]; ok {
+			for _, k := range rr.KDCs {
+				if k.Beh.TCP == "reply-close" || k.Beh.TCP == "reply-hold" || k.Beh.UDP == "reply" {
 					rp := k.Reply(rq.payload)
 					fr := make([]byte, 4+len(rp))
 					binary.BigEndian.PutUint32(fr, uint32(len(rp)))
@@ -235,11 +226,7 @@ func c20Scenario(l *Lab, rep *Report, w *c20World, name string, si int) {
 				}
 			}
 		}
-		for cr := range contacted {
-			if cr != realm {
-				rep.Violate("C20/kdc-of-other-realm-contacted/"+name, fmt.Sprintf("request for realm %q (effective %q) was sent to a KDC of realm %q", rq.realm, realm, cr), detail)
-			}
-		}
+		_ = before
 		canReply := false
 		if rr, ok := w.realms[realm]; ok {
 			for _, k := range rr.KDCs {
@@ -285,6 +272,9 @@ func c20Scenario(l *Lab, rep *Report, w *c20World, name string, si int) {
 			go func(i int) {
 				defer wg.Done()
 				payload := GenStream(uint64(90000+i), 50+i)
+				sentMu.Lock()
+				sent[string(payload)] = map[string]bool{[]string{"VERIF.TEST", "OTHER.TEST"}[i%2]: true}
+				sentMu.Unlock()
 				framed := make([]byte, 4+len(payload))
 				binary.BigEndian.PutUint32(framed, uint32(len(payload)))
 				copy(framed[4:], payload)
@@ -312,9 +302,44 @@ func c20Scenario(l *Lab, rep *Report, w *c20World, name string, si int) {
 		}
 		wg.Wait()
 	}
+	// ---- audit of everything the KDCs received (attributed by content: replies may
+	// still be read by slower KDCs after the proxy answered)
+	c20Settle(w)
+	for _, r := range w.realms {
+		for _, k := range r.KDCs {
+			tcp, udp := k.Received()
+			for _, m := range tcp {
+				if len(m) == 0 {
+					continue // accept-close behaviour reads nothing
+				}
+				ok := false
+				if len(m) >= 4 {
+					if rl, found := sent[string(m[4:])]; found && int(binary.BigEndian.Uint32(m)) == len(m)-4 {
+						ok = true
+						if !rl[r.Name] {
+							rep.Violate("C20/kdc-of-other-realm-contacted/"+name, fmt.Sprintf("KDC %s received (TCP) a message that was addressed to realm(s) %v", k.Name, rl), nil)
+						}
+					}
+				}
+				if !ok {
+					rep.Violate("C20/kdc-received-other-bytes/tcp/"+name, fmt.Sprintf("KDC %s received %d bytes over TCP that are not any embedded message with its length prefix", k.Name, len(m)), map[string]any{"first_bytes": fmt.Sprintf("%x", m[:MinInt(len(m), 48)])})
+				}
+			}
+			for _, m := range udp {
+				rl, found := sent[string(m)]
+				if !found {
+					rep.Violate("C20/kdc-received-other-bytes/udp/"+name, fmt.Sprintf("KDC %s received a %d byte datagram that is not any embedded message without its prefix", k.Name, len(m)), map[string]any{"first_bytes": fmt.Sprintf("%x", m[:MinInt(len(m), 48)])})
+				} else if !rl[r.Name] {
+					rep.Violate("C20/kdc-of-other-realm-contacted/"+name, fmt.Sprintf("KDC %s received (UDP) a message that was addressed to realm(s) %v", k.Name, rl), nil)
+				}
+			}
+			rep.Count("kdc_messages_audited", len(tcp)+len(udp))
+		}
+	}
 	if name != "one-good-kdc" {
 		return
 	}
+	c20Settle(w)
 	// ---- short kerberos messages and malformed requests: answered, no KDC contact
 	before := w.snapshot()
 	noContact := func(what string, detail map[string]any) {
@@ -400,6 +425,29 @@ func c20Scenario(l *Lab, rep *Report, w *c20World, name string, si int) {
 			noContact(m.name, detail)
 		} else {
 			before = w.snapshot()
+		}
+	}
+}
+
+// c20Settle waits until the KDC logs stopped growing.
+func c20Settle(w *c20World) {
+	count := func() int {
+		n := 0
+		for _, r := range w.realms {
+			for _, k := range r.KDCs {
+				t, u := k.Received()
+				n += len(t) + len(u)
+			}
+		}
+		return n
+	}
+	last, stable := count(), 0
+	for i := 0; i < 200 && stable < 4; i++ {
+		time.Sleep(15 * time.Millisecond)
+		if c := count(); c == last {
+			stable++
+		} else {
+			last, stable = c, 0
 		}
 	}
 }
